@@ -29,6 +29,7 @@ func (s *strList) Set(v string) error { *s = append(*s, v); return nil }
 var (
 	dir     = flag.String("dir", "", "module directory to load packages from (the scratch copy of src)")
 	tags    = flag.String("tags", "verif", "build tags")
+	stubBackup = flag.Bool("stub-backup", false, "replace (*badger.DB).Backup by a no-op in controlled mode")
 	access  = flag.Bool("access", false, "instrument struct-field accesses (C18 build)")
 	consts  strList
 	pkgs    strList
@@ -441,6 +442,11 @@ func (r *rewriter) rewriteCall(n *ast.CallExpr) ast.Node {
 				r.stats["time."+name]++
 				return call(sel("vtime", name), n.Args...)
 			}
+		}
+		if name, recv := r.libCall(n); name == "badger.Backup" && *stubBackup {
+			// declared abstraction: the side-output backup of the vertices store is skipped in explored builds
+			r.stats["lib.backup-stub"]++
+			return call(r.vs("StubBackup"), append([]ast.Expr{recv}, n.Args...)...)
 		}
 		if name, recv := r.libCall(n); name != "" {
 			r.stats["lib"]++
